@@ -230,3 +230,8 @@ Lemma dpub_edge_at_max_i64 :
   let p := [57;50;50;51;51;55;50;48;51;54;56;53;53]%N (* "9223372036855" *) in
   (ms_ns p > max_i64)%Z /\ dpub_param max_i64 p = DpubDelay max_i64.
 Proof. vm_compute. split; reflexivity. Qed.
+
+Theorem leading_zeros_irrelevant : forall k p,
+  dec_value (repeat 48%N k ++ p) = dec_value p /\
+  all_digits (repeat 48%N k ++ p) = all_digits p.
+Proof. intros. split; [apply dec_value_leading_zeros | apply all_digits_leading_zeros]. Qed.
